@@ -17,14 +17,15 @@ Monitors
 Latitude (written down so that nobody mistakes it for coverage)
   * Non-coding records (FeatureInterval, TranscriptInterval without CDS): the library writes thickStart = thickEnd = 0
     although start > 0.  The half-open thick range [0,0) is empty, denotes "no thick part", and an empty range is
-    contained in every range; the code comments ("thickStart always 0 for non-coding") and three upstream tests pin it.
-    The monitor therefore requires only thickStart == thickEnd for non-coding records (counted under
-    extra.noncoding_thick_zero_sentinel when it is the 0/0 sentinel outside [start,end]).  For coding records the thick
-    range must be inside [start,end] and equal to the CDS bounds.
+    contained in every range; UCSC's own validator (kent basicBed.c: "thickStart out of range (chromStart to chromEnd, or 0
+    if no CDS)") admits exactly this sentinel, and the code comments ("thickStart always 0 for non-coding") and three
+    upstream tests pin it.  The monitor therefore requires, for non-coding records, an EMPTY thick range that is either
+    inside [start,end] or the 0/0 sentinel (occurrences counted under counters.noncoding_thick_zero_sentinel).  For coding
+    records the thick range must be inside [start,end] and equal to the CDS bounds.
   * Windows that CUT the interval are outside the property's quantifier ("windows containing the interval").  There the
     format invariants are still checked on every record produced; decoded blocks are compared with (chromosome blocks n
     window) - chunk start only when the library's own chunk_relative_location agrees with that intersection (otherwise the
-    disagreement belongs to C07, counted under extra.cut_window_location_differs).  If the CDS has no base inside the
+    disagreement belongs to C07, counted under counters.cut_window_location_differs; same rule for the CDS bounds).  If the CDS has no base inside the
     window, any thick range that passes bed.thick and an EmptyLocationException are accepted; a window containing no exon
     base may raise EmptyLocationException.
   * Minus-strand chunks (seq_chunk_to_parent(strand=MINUS), used by no upstream test): chunk coordinates run backwards;
@@ -326,17 +327,23 @@ def _one_parent(case, ctx, blocks, window, pidx):
         if coding_record:
             ctx.check("bed.thick", "thick-inside" not in pnames, key=("coding-inside",) + key, window=window, text=text)
         else:
-            # latitude: empty thick range == no thick part (0/0 sentinel accepted); cut-away CDS may also keep its bounds
-            ok = ts == te or (cds is not None and "thick-inside" not in pnames)
+            # latitude: no thick part = an empty thick range, either inside [start,end] or the 0/0 sentinel ("chromStart to
+            # chromEnd, or 0 if no CDS" is the rule of UCSC's own validator); a cut-away CDS may also keep its bounds
+            ok = (ts == te and (ts == 0 or "thick-inside" not in pnames)) or (cds is not None and "thick-inside" not in pnames)
             ctx.check("bed.thick", ok, key=("noncoding-empty",) + key, window=window, text=text)
             if ts == te == 0 and rec["start"] > 0:
                 ctx.bump("noncoding_thick_zero_sentinel")
         # ---- decoded content
         compare_blocks = True
+        compare_cds = True
         if chunk and not chrom_mode and not containing:
-            compare_blocks = _library_chunk_blocks(obj) == want_blocks
+            compare_blocks = bool(want_blocks) and _library_chunk_blocks(obj) == want_blocks
             if not compare_blocks:
                 ctx.bump("cut_window_location_differs")
+            if cds is not None and want_cds is not None:
+                compare_cds = _library_chunk_blocks(obj.cds) == _chunk_blocks(_cds_blocks(blocks, cds), window)
+                if not compare_cds:
+                    ctx.bump("cut_window_cds_location_differs")
         if compare_blocks:
             got = [tuple(b) for b in rec["blocks"]]
             ok = (_covered(got) == _covered(want_blocks)) if adjacent else (got == want_blocks)
@@ -351,7 +358,7 @@ def _one_parent(case, ctx, blocks, window, pidx):
         nkey = "default" if default_call else (name_arg if name_arg in names else "literal")
         ctx.check("bed.decode-name", rec["name"] == w_name, key=key + (nkey,), name_arg=None if default_call else name_arg,
                   got=rec["name"], want=w_name, text=text)
-        if coding_record and cds_inside and want_cds is not None:
+        if coding_record and cds_inside and want_cds is not None and compare_cds:
             ctx.check("bed.decode-cds", (ts, te) == want_cds, key=key, window=window, text=text, got=[ts, te], want=list(want_cds))
         ok_chrom = True
         if case["seqname"] is not None:
